@@ -3203,3 +3203,139 @@ impl Component {
         }
     }
 }
+
+//------------ Verification hooks --------------------------------------------
+//
+// Add-only, compiled only with the cargo feature `verif-hooks`. Exposes the
+// private `spawn_internal` with recording stubs (the technique of the tests
+// above) and read access to the manager's bookkeeping. Does not alter
+// behaviour.
+
+#[cfg(feature = "verif-hooks")]
+pub mod verif {
+    use super::*;
+
+    /// What `spawn_internal` asked for, as seen by the recording stubs.
+    #[derive(Clone, Debug)]
+    pub enum Action {
+        SpawnUnit {
+            name: String,
+            type_name: &'static str,
+            gate_id: Uuid,
+            config: String,
+        },
+        SpawnTarget {
+            name: String,
+            type_name: &'static str,
+            config: String,
+        },
+        ReconfigureUnit {
+            name: String,
+            type_name: &'static str,
+            new_gate_id: Uuid,
+            config: String,
+        },
+        ReconfigureTarget {
+            name: String,
+            type_name: &'static str,
+            config: String,
+        },
+        TerminateUnit {
+            name: String,
+        },
+        TerminateTarget {
+            name: String,
+        },
+    }
+
+    impl Manager {
+        /// `spawn()` with every start/reconfigure/terminate replaced by a
+        /// stub that records the request (nothing is run). The `config`
+        /// strings are the `Debug` rendering of the `Unit`/`Target` value
+        /// handed to the stub.
+        pub fn verif_spawn_recorded(
+            &mut self,
+            config: &mut Config,
+        ) -> Vec<Action> {
+            let log: RefCell<Vec<Action>> = RefCell::new(Vec::new());
+            self.spawn_internal(
+                config,
+                |c: Component, u: Unit, g: Gate, _: WaitPoint| {
+                    log.borrow_mut().push(Action::SpawnUnit {
+                        name: c.name().to_string(),
+                        type_name: u.type_name(),
+                        gate_id: g.id(),
+                        config: format!("{u:?}"),
+                    })
+                },
+                |c: Component,
+                 t: Target,
+                 _: Receiver<TargetCommand>,
+                 _: WaitPoint| {
+                    log.borrow_mut().push(Action::SpawnTarget {
+                        name: c.name().to_string(),
+                        type_name: t.type_name(),
+                        config: format!("{t:?}"),
+                    })
+                },
+                |name: &str, _: GateAgent, u: Unit, g: Gate| {
+                    log.borrow_mut().push(Action::ReconfigureUnit {
+                        name: name.to_string(),
+                        type_name: u.type_name(),
+                        new_gate_id: g.id(),
+                        config: format!("{u:?}"),
+                    })
+                },
+                |name: &str, _: Sender<TargetCommand>, t: Target| {
+                    log.borrow_mut().push(Action::ReconfigureTarget {
+                        name: name.to_string(),
+                        type_name: t.type_name(),
+                        config: format!("{t:?}"),
+                    })
+                },
+                |name: &str, _: Arc<GateAgent>| {
+                    log.borrow_mut().push(Action::TerminateUnit {
+                        name: name.to_string(),
+                    })
+                },
+                |name: &str, _: Arc<Sender<TargetCommand>>| {
+                    log.borrow_mut().push(Action::TerminateTarget {
+                        name: name.to_string(),
+                    })
+                },
+            );
+            log.into_inner()
+        }
+
+        pub fn verif_running_units(&self) -> Vec<String> {
+            self.running_units.keys().cloned().collect()
+        }
+
+        pub fn verif_running_targets(&self) -> Vec<String> {
+            self.running_targets.keys().cloned().collect()
+        }
+
+        pub fn verif_pending_gates(&self) -> Vec<String> {
+            self.pending_gates.keys().cloned().collect()
+        }
+    }
+
+    /// Names currently held by the thread-local GATES table.
+    pub fn gates_table_names() -> Vec<String> {
+        GATES.with(|gates| {
+            gates
+                .borrow()
+                .as_ref()
+                .map(|g| g.keys().cloned().collect())
+                .unwrap_or_default()
+        })
+    }
+
+    /// Puts the thread-local tables in the state of a fresh process.
+    pub fn reset_thread_local_tables() {
+        GATES.with(|gates| gates.replace(Some(Default::default())));
+        ROTO_FILTER_NAMES.with(|filter_names| {
+            filter_names.replace(Some(Default::default()))
+        });
+    }
+}
